@@ -69,6 +69,22 @@ func recordField(t *Term) (string, ssa.Value, bool) {
 	return "", nil, false
 }
 
+// recordIndex: t is <record copy>.<field> (recordField); returns the SSA value of the position list[pos] the record was
+// copied from, nil when the term does not show one.
+func recordIndex(t *Term) ssa.Value {
+	if t == nil || t.Op != "field" {
+		return nil
+	}
+	b := t.Args[0]
+	for (b.Op == "un" && b.Name == "&") || (b.Op == "phi" && len(b.Args) == 1) {
+		b = b.Args[0]
+	}
+	if b.Op == "elem" && len(b.Args) == 2 && b.Args[0].Op == "call" && b.Args[0].Name == "iface.Innovations" && b.Args[1].V != nil {
+		return stripCT(b.Args[1].V)
+	}
+	return nil
+}
+
 func (r *Run) innovSiteOf(name, kind string) *innovSite {
 	p := r.P
 	fn := p.Func(PkgG, "Genome."+name)
@@ -721,6 +737,26 @@ func c03Core(p *Prog, r *Run, sums *Summaries) {
 				g Guard
 			}
 			var eqs []recEq
+			// which element of the list the reuse path reads: every number (and the node id) it takes comes from list[pos] with
+			// one and the same position value; a comparison made on an element at another position (`list[0]`, `list[i-1]`)
+			// says nothing about the record the gene is built from
+			var genePos ssa.Value
+			onePos := true
+			notePos := func(t *Term) {
+				pos := recordIndex(t)
+				if pos == nil || (genePos != nil && genePos != pos) {
+					onePos = false
+				}
+				genePos = pos
+			}
+			for _, q := range s.reuse {
+				notePos(s.tmAt(q.call.Block()).Of(q.args[5]))
+				if nn, isCall := q.args[3].(*ssa.Call); s.kind == "node" && isCall && nn.Call.StaticCallee() != nil && nn.Call.StaticCallee().Name() == "NewNNode" {
+					notePos(s.tmAt(nn.Block()).Of(nn.Call.Args[0]))
+				}
+			}
+			r.Check(onePos, name+".reuse.one-record", p.Pos(gc.call.Pos()), "the numbers (and node id) of the reuse path are read from one element of the scanned list",
+				name+": the genes of the reuse path take their numbers / node id from different elements of the innovation list, or from a position that cannot be followed")
 			// ... and when the scan hands out the position of the matched record (`idx = i; break` ... `if idx >= 0 { list[idx] }`),
 			// what held for list[i] on the way out holds for the record the gene is built from (see indexMatch)
 			ixConds, ixRecs, ixExits := s.indexMatch(p, gc.call.Block())
@@ -771,6 +807,9 @@ func c03Core(p *Prog, r *Run, sums *Summaries) {
 					f, rb, isRec := recordField(pr[0])
 					if !isRec || (kc.recs != nil && !kc.recs[rb]) {
 						continue
+					}
+					if kc.recs == nil && (!onePos || recordIndex(pr[0]) != genePos) {
+						continue // a comparison on another element of the list
 					}
 					o := pr[1]
 					eqs = append(eqs, recEq{f, o, g})
@@ -888,6 +927,11 @@ func c03Core(p *Prog, r *Run, sums *Summaries) {
 								}
 							}
 						}
+						// ... and so is leaving with the matched record handed out as a pointer that is nil while nothing matched
+						// (`var known *Innovation` ... `m := inn; known = &m; break` ... `if known != nil {…}`)
+						if s.leavesWithRecord(gc.call.Block(), b, sx) {
+							viaFlag = true
+						}
 						// leaving with the position of the matched record handed out is leaving through the match too
 						for _, e := range ixExits {
 							if e[0] == b && e[1] == sx {
@@ -959,6 +1003,10 @@ func c03Core(p *Prog, r *Run, sums *Summaries) {
 					// the match may be established before the gene is built (the scan hands out the record's position):
 					// from there on nothing is issued or stored either
 					w = s.c03MatchExitIssues(p, q.call.Block(), fresh, issues, nextAttempt)
+				}
+				if w == nil {
+					// ... or as a pointer to (a copy of) the matched record
+					w = s.c03RecordExitIssues(p, q.call.Block(), fresh, issues, nextAttempt)
 				}
 				cn := name + ".novel.unmatched-only"
 				if i > 0 {
